@@ -47,6 +47,14 @@ theorem provides_eq_first_leaf (e : RExpr) (kind choice : String) :
     simp only [provides, leaves, List.findSome?_append, ← iha, ← ihb]
     cases provides a kind choice <;> rfl
 
+/-- The random source of a fallback resolver is the preferred member's whenever that member has
+    one (so an application's own entropy source placed first is really used), else the fallback's. -/
+theorem fallback_rng_source (a b : RExpr) :
+    rngMark (.fb a b) = (match rngMark a with | some m => some m | none => rngMark b) := rfl
+
+theorem fallback_rng_prefers_first (a b : RExpr) (m : String) (h : rngMark a = some m) :
+    rngMark (.fb a b) = some m := by simp [rngMark, h]
+
 /-- Two suites that agree on every cryptographic function and size (they may differ in names and
     in what a decrypt leaves in the output buffer). -/
 def SameFunctions (A B : Suite) : Prop :=
